@@ -46,7 +46,7 @@ Inductive ty :=
   | TArrPrefix (inst : bool) (lt : ty) (e : ty)     (* Array(L, T) / T[L], L a type class (inst=false) or instance *)
   | TArrAll (e : ty)                                (* Array(None, T) *)
   | TStruct (k : skind) (ms : list (key * ty))      (* Struct(m1, ...): member name (None / "" / str), type *)
-  | TFixedStr (cap : nat) (lsg : bool) (lw : nat)   (* FixedSizeString(cap, len_type) *)
+  | TFixedStr (size : nat) (lsg : bool) (lw : nat) (cap : nat)   (* FixedSizeString(size, len_type, capacity) *)
   | TStructTag (ms : list ((key * nat) * ty))       (* StructTag: (member name, offset), type              *)
                (bits : list (text * (nat * nat)))   (* bit members name -> (offset, bit)                   *)
                (priv : list text) (size : nat)      (* private names, struct_size                          *)
@@ -285,15 +285,19 @@ Fixpoint ints_of (l : list val) : option (list Z) :=
   | VBool b :: r => option_map (cons (if b then 1 else 0)) (ints_of r)
   | _ => None
   end.
-Definition nbytes_encode (n : Z) : val -> res bytes :=
-  pub_encode (fun v =>
-    let cut := fun (l : list Z) => if n =? -1 then l else slice_to n l in
-    match v with
-    | VBytes b => Ok (cut b)
-    | VStr s => Ok (cut s)
-    | VList l | VTuple l => match ints_of l with Some zs => Ok (cut zs) | None => Err (Foreign NotImplementedError) end
-    | _ => Err (Foreign TypeError)
-    end).
+Definition nbytes_encode (n : Z) (v : val) : res bytes :=
+  let cut := fun (l : list Z) => if n =? -1 then l else slice_to n l in
+  match v with
+  | VList l | VTuple l =>
+      match ints_of l with Some zs => Ok (cut zs) | None => Err (Foreign NotImplementedError) end
+  | _ =>
+      pub_encode (fun v =>
+        match v with
+        | VBytes b => Ok (cut b)
+        | VStr s => Ok (cut s)
+        | _ => Err (Foreign TypeError)
+        end) v
+  end.
 Definition nbytes_decode (n : Z) (bs : bytes) : dres :=
   dwrap (stream_read n bs (fun data rest => DOk (VBytes data) rest)).
 
@@ -318,26 +322,28 @@ Definition bits_encode (w : nat) : val -> res bytes :=
 Definition bits_decode (w : nat) (bs : bytes) : dres :=
   dwrap (dbind (int_decode false w bs) (fun v rest => DOk (VList (value_bits (8 * w) (as_int v))) rest)).
 
-(* FixedSizeString(cap, len_type) *)
-Definition fixedstr_encode (cap : nat) (lsg : bool) (lw : nat) : val -> res bytes :=
-  pub_encode (fun v =>
+(* FixedSizeString(size, len_type, capacity): `value = value[: cls.capacity]`, then the length, the
+   characters and zero padding up to [size] *)
+Definition fixedstr_encode (size : nat) (lsg : bool) (lw : nat) (cap : nat) : val -> res bytes :=
+  pub_encode (fun v0 =>
     match fss_enc with
     | None => Err (Foreign AttributeError)
     | Some enc =>
+        let* v := py_slice v0 0 cap in
         let* n := py_len v in
         let* l := int_encode lsg lw (VInt n) in
         match v with
-        | VStr s => let* d := text_encode enc s in Ok (l ++ d ++ zeros (cap - length s))
+        | VStr s => let* d := text_encode enc s in Ok (l ++ d ++ zeros (size - length s))
         | _ => Err (Foreign AttributeError)
         end
     end).
 
-Definition fixedstr_decode (cap : nat) (lsg : bool) (lw : nat) (bs : bytes) : dres :=
+Definition fixedstr_decode (size : nat) (lsg : bool) (lw : nat) (bs : bytes) : dres :=
   match fss_enc with
   | None => DErr DataError
   | Some enc =>
       dwrap (dbind (int_decode lsg lw bs) (fun n r1 =>
-        stream_read (Z.of_nat cap) r1 (fun data r2 =>
+        stream_read (Z.of_nat size) r1 (fun data r2 =>
           match text_decode enc (slice_to (as_int n) data) with Ok s => DOk (VStr s) r2 | Err e => DErr e end)))
   end.
 
@@ -918,7 +924,7 @@ Fixpoint encode (t : ty) : val -> res bytes :=
   | TArrPrefix _ _ e => array_encode None (bits_width e) (is_instance e) (as_member e (encode e))
   | TArrAll e => array_encode None (bits_width e) (is_instance e) (as_member e (encode e))
   | TStruct k ms => struct_encode k (map (fun m => (fst m, as_member (snd m) (encode (snd m)))) ms)
-  | TFixedStr cap lsg lw => fixedstr_encode cap lsg lw
+  | TFixedStr size lsg lw cap => fixedstr_encode size lsg lw cap
   | TStructTag ms bits priv size =>
       structtag_encode (map (fun m => (fst m, as_member (snd m) (encode (snd m)))) ms) bits priv size
   | TIPAddr => ip_encode
@@ -941,7 +947,7 @@ Fixpoint decode_fuel (fuel : nat) (t : ty) {struct t} : bytes -> dres :=
   | TArrPrefix inst lt e => array_decode_prefix inst (decode_fuel fuel lt)
   | TArrAll e => array_decode_all (decode_fuel fuel e) fuel
   | TStruct k ms => struct_decode k (map (fun m => (fst m, decode_fuel fuel (snd m))) ms)
-  | TFixedStr cap lsg lw => fixedstr_decode cap lsg lw
+  | TFixedStr size lsg lw _ => fixedstr_decode size lsg lw
   | TStructTag ms bits priv size =>
       structtag_decode (map (fun m => (fst m, decode_fuel fuel (snd m))) ms) bits priv size
   | TIPAddr => ip_decode
